@@ -172,8 +172,16 @@ JudgeCancelled(r) ==
     IF pred.outcome = "cancelled" THEN Verdict(r.rid, "L1", "ok", "refusal predicted")
     ELSE Verdict(r.rid, "L1", "drift", <<"observed a refusal, predicted", pred.status>>)
 
+(* L0 pipeline self-check for TLC-enumerated programs: parsing the printed text gives back the enumerated tree *)
+JudgeGenerated(r) ==
+  IF ~r.has_gen THEN TRUE
+  ELSE \E d \in {ShapeDiff(Shape(TreeOf(r.gen)), Shape(TreeOf(r.in)))} :
+       IF d = "" THEN Verdict(r.rid, "L0", "ok", "printed tree parses back")
+       ELSE Verdict(r.rid, "L0", "toolerror", d)
+
 Judge(r) ==
   /\ JudgeTotal(r)
+  /\ (IF r.outcome = "ok" THEN JudgeGenerated(r) ELSE TRUE)
   /\ (IF r.outcome = "ok" THEN JudgeModel(r) ELSE IF r.refused THEN JudgeCancelled(r) ELSE TRUE)
   /\ IF r.outcome = "ok" THEN JudgeOk(r) /\ JudgeLiterals(r) ELSE TRUE
 
